@@ -223,6 +223,7 @@ def run(repo: Repo, ctx) -> None:
     _r3(repo, ctx)
     _r4(repo, ctx)
     _r5(repo, ctx)
+    _r6(repo, ctx)
 
 
 def _argmin_loops(fn: FuncInfo):
@@ -429,3 +430,141 @@ def _r5(repo: Repo, ctx) -> None:
     ctx.ob('C12.R5', 'schemactx.get_union_type:via-schema-utils', ok,
            f'get_union_type builds the union through {sorted(calls)[:6]}',
            gu.loc, sample='s_utils.ensure_union_type')
+
+
+class _Sub:
+    def __init__(self, ctx, rule):
+        self._c = ctx
+        self._rule = rule
+
+    def __getattr__(self, k):
+        return getattr(self._c, k)
+
+    def ob(self, rule, *a, **kw):
+        return self._c.ob(self._rule, *a, **kw)
+
+    def fail(self, rule, *a, **kw):
+        return self._c.fail(self._rule, *a, **kw)
+
+    def floor(self, rule, n):
+        self._c.floor(self._rule, min(n, 5))
+
+
+def _tokens(t: str):
+    import re
+    return re.findall(r'[A-Za-z_][A-Za-z_0-9]*|\S', t)
+
+
+def _mirror(tok: str) -> str:
+    if 'left' in tok:
+        return tok.replace('left', 'right')
+    if 'right' in tok:
+        return tok.replace('right', 'left')
+    return tok
+
+
+def _r6(repo: Repo, ctx) -> None:
+    # ---- R6: the descriptor sent to clients is a faithful, unique encoding
+    #      of the inferred type (C14's rules)
+    from . import c14
+    c14.run(repo, _Sub(ctx, 'C12.R6'))
+    # ---- R7: left / right operands are treated alike -----------------------
+    ctx.floor('C12.R7', 2)
+    mods = ['edb.edgeql.compiler.typegen', 'edb.edgeql.compiler.polyres',
+            'edb.edgeql.compiler.func', 'edb.schema.types',
+            'edb.schema.utils', 'edb.schema.casts', 'edb.schema.scalars']
+    n_pairs = 0
+    for mn in mods:
+        m = repo.modules.get(mn)
+        if m is None:
+            continue
+        for fn in repo._funcs_of(m):
+            for blk in ast.walk(fn.node):
+                body = getattr(blk, 'body', None)
+                if not isinstance(body, list):
+                    continue
+                for i, s1 in enumerate(body):
+                    if not isinstance(s1, ast.stmt):
+                        continue
+                    a = _tokens(norm(s1))
+                    if not any('left' in t for t in a) or any(
+                            'right' in t for t in a):
+                        continue
+                    for s2 in body[i + 1:i + 4]:
+                        b = _tokens(norm(s2))
+                        if len(b) != len(a) or not any('right' in t
+                                                       for t in b):
+                            continue
+                        want = [_mirror(t) for t in a]
+                        diff = [(x, y) for x, y in zip(want, b) if x != y]
+                        if len(diff) > 2:
+                            continue      # not a mirrored sibling
+                        # only a left_* name surviving in the right-hand
+                        # copy is the slip; other differences (self/other)
+                        # are what distinguishes the two operands
+                        diff = [(x, y) for x, y in diff if 'left' in y]
+                        n_pairs += 1
+                        ctx.saw(fn)
+                        ctx.ob('C12.R7', f'{fn.qualname}:mirror@L'
+                               f'{s2.lineno - fn.node.lineno}', not diff,
+                               f'{fn.qualname}: the statement handling the '
+                               f'right operand mirrors the one for the left '
+                               f'operand except for {diff}: a left_* name '
+                               f'in the right-hand copy (copy-paste slip) '
+                               f'makes the right operand be combined by the '
+                               f'left operand\'s operator, so the inferred '
+                               f'type of A & B & (C | D) loses its union',
+                               fn.loc, sample='mirrored statements agree')
+    if n_pairs < 2:
+        raise AnalysisError(f'C12.R7: only {n_pairs} mirrored statement '
+                            f'pairs found')
+    # ---- R8: a common-type fold updates its accumulator in every iteration --
+    ctx.floor('C12.R8', 2)
+    n_f = 0
+    for mn in ('edb.schema.utils', 'edb.edgeql.compiler.typegen'):
+        m = repo.module(mn)
+        for fn in repo._funcs_of(m):
+            for loop in ast.walk(fn.node):
+                if not isinstance(loop, (ast.For, ast.While)):
+                    continue
+                calls = [c for c in ast.walk(loop) if isinstance(c, ast.Call)
+                         and isinstance(c.func, ast.Attribute)
+                         and c.func.attr ==
+                         'find_common_implicitly_castable_type'
+                         and isinstance(c.func.value, ast.Name)]
+                if not calls:
+                    continue
+                acc = calls[0].func.value.id
+                n_f += 1
+                ctx.saw(fn)
+                g = CFG(fn.node)
+                head = [x for x in g.nodes_of(loop)
+                        if g.nodes[x].kind in ('for', 'test')]
+                upd = [n.id for n in g.nodes if n.kind == 'stmt'
+                       and isinstance(n.ast, ast.Assign)
+                       and any(isinstance(x, ast.Name) and x.id == acc
+                               for t in n.ast.targets for x in ast.walk(t))
+                       and any(n.ast is y for y in ast.walk(loop))
+                       and not any(n.ast is y for b in getattr(
+                           loop, 'orelse', []) for y in ast.walk(b))]
+                cn = [n.id for n in g.nodes if calls[0] in g.node_calls(n)]
+                if not head:
+                    head = [x.id for x in g.nodes if x.ast is getattr(
+                        loop, 'test', None)]
+                ok = bool(upd) and bool(cn)
+                if ok:
+                    # from the call, the next arrival at the loop head (or
+                    # any normal exit) passes an update of the accumulator,
+                    # or the update is the call statement itself
+                    ok = all(c in upd or g.always_after(
+                        c, upd, exits=set(head) | {g.exit}) for c in cn)
+                ctx.ob('C12.R8', f'{fn.qualname}:fold={acc}', ok,
+                       f'{fn.qualname} folds find_common_implicitly_'
+                       f'castable_type over the members but does not store '
+                       f'the result back into `{acc}` in every iteration: '
+                       f'the common type of three or more members becomes '
+                       f'that of the first and the last only (int16, '
+                       f'float32, int32 -> float32 instead of float64)',
+                       fn.loc, sample=f'{acc} updated per iteration')
+    if n_f < 2:
+        raise AnalysisError(f'C12.R8: only {n_f} common-type folds found')
